@@ -128,6 +128,9 @@ pub fn scenario(ctx: &Ctx, idx: u64, check: &'static str, stream: &'static str) 
         };
         net.set_send_yield(*[0.0, 0.0, 0.3, 1.0].choose(&mut rng).unwrap());
         let dht = spawn_node(&net, &cfg);
+        if rng.gen_bool(0.3) {
+            crate::world::api_hammer(&net, &dht, addr, seed, 0.05, 50_000);
+        }
         report.evaluations += 1;
         report.distinct(format!(
             "contacts{n}/silent{}/start-{}/serving{serving}/lat{}/{}h/omit{}",
